@@ -533,6 +533,9 @@ QUICK_CAP = {"single": 500, "literals": 300, "currency": 220, "percent": 180, "s
              "frac": 300, "date": 450, "text": 219, "tlc": 400, "random": 450}
 
 
+THOROUGH_CAP = {"single": 8000, "literals": 5000, "sections": 10000, "random": 12000}
+
+
 def gen_items(chk, replays):
     rng = chk.rng
     quick = chk.tier == "quick"
@@ -597,8 +600,9 @@ def gen_items(chk, replays):
     items = fixed_items()
     stats = {"fixed": len(items)}
     for fam, its in fam_items.items():
-        if quick and len(its) > QUICK_CAP[fam]:
-            its = rng.sample(its, QUICK_CAP[fam])
+        cap = QUICK_CAP[fam] if quick else THOROUGH_CAP.get(fam, len(its))
+        if len(its) > cap:
+            its = rng.sample(its, cap)
         stats[fam] = len(its)
         items += its
     chk.extra["items_by_family"] = stats
